@@ -320,7 +320,14 @@ fn zoo_arc<'s>(z: usize) -> ZArc<'s> {
         1 => Arc::new(zoo::pratt()),
         2 => Arc::new(zoo::rx()),
         3 => Arc::new(zoo::valid()),
-        _ => Arc::new(zoo::rx2()),
+        4 => Arc::new(zoo::rx2()),
+        8 => Arc::new(zoo::empty_err::valid()),
+        9 => Arc::new(zoo::empty_err::memo()),
+        10 => Arc::new(zoo::cheap_err::valid()),
+        11 => Arc::new(zoo::cheap_err::memo()),
+        12 => Arc::new(zoo::simple_err::valid()),
+        13 => Arc::new(zoo::simple_err::memo()),
+        _ => panic!("harness: zoo grammar {} is not Sync", z),
     }
 }
 
@@ -336,6 +343,12 @@ static ZC1: LazyLock<Cache<ZooC<1>>> = LazyLock::new(|| Cache::new(ZooC::<1>));
 static ZC2: LazyLock<Cache<ZooC<2>>> = LazyLock::new(|| Cache::new(ZooC::<2>));
 static ZC3: LazyLock<Cache<ZooC<3>>> = LazyLock::new(|| Cache::new(ZooC::<3>));
 static ZC4: LazyLock<Cache<ZooC<4>>> = LazyLock::new(|| Cache::new(ZooC::<4>));
+static ZC8: LazyLock<Cache<ZooC<8>>> = LazyLock::new(|| Cache::new(ZooC::<8>));
+static ZC9: LazyLock<Cache<ZooC<9>>> = LazyLock::new(|| Cache::new(ZooC::<9>));
+static ZC10: LazyLock<Cache<ZooC<10>>> = LazyLock::new(|| Cache::new(ZooC::<10>));
+static ZC11: LazyLock<Cache<ZooC<11>>> = LazyLock::new(|| Cache::new(ZooC::<11>));
+static ZC12: LazyLock<Cache<ZooC<12>>> = LazyLock::new(|| Cache::new(ZooC::<12>));
+static ZC13: LazyLock<Cache<ZooC<13>>> = LazyLock::new(|| Cache::new(ZooC::<13>));
 
 fn static_cache_get<'s>(z: usize) -> &'s ZArc<'s> {
     match z {
@@ -343,7 +356,14 @@ fn static_cache_get<'s>(z: usize) -> &'s ZArc<'s> {
         1 => ZC1.get(),
         2 => ZC2.get(),
         3 => ZC3.get(),
-        _ => ZC4.get(),
+        4 => ZC4.get(),
+        8 => ZC8.get(),
+        9 => ZC9.get(),
+        10 => ZC10.get(),
+        11 => ZC11.get(),
+        12 => ZC12.get(),
+        13 => ZC13.get(),
+        _ => panic!("harness: zoo grammar {} is not Sync", z),
     }
 }
 
@@ -631,7 +651,7 @@ pub fn gen_case(seed: u64, idx: u64) -> (ThrCase, Rng) {
     let reader_seed = rng.next_u64();
     let pick = rng.below(10);
     let (subject, pool_syms, pool_text, npool) = if pick < 3 {
-        let z = rng.usize(zoo::ZOO_SYNC);
+        let z = *rng.pick(&zoo::ZOO_SYNC_IDS);
         let all = zoo::pool(z);
         let n = rng.range(2, 5.min(all.len() as u64)) as usize;
         let texts: Vec<String> = (0..n).map(|_| all[rng.usize(all.len())].to_string()).collect();
